@@ -2,8 +2,8 @@
    This file contains only the property theorems (closed by `exact`), their non-vacuity examples and
    Print Assumptions. *)
 From Coq Require Import QArith List.
-From Zepid Require Import Base.QSum Base.QUtil Model.RdBounds Proofs.RdBoundsProofs GenProofs.GenProofs_rdbounds.
-From ZepidGen Require Import Gen_rdbounds_Q.
+From Zepid Require Import Base.QSum Base.QUtil Model.RdBounds Proofs.RdBoundsProofs GenProofs.GenProofs_rdbounds GenProofs.GenProofs_basefit Model.Frames.
+From ZepidGen Require Import Gen_rdbounds_Q Gen_basefit_Q.
 Import ListNotations.
 Open Scope Q_scope.
 
@@ -58,6 +58,10 @@ Example C19_nonvacuous :
   lower us == - (2 # 7) /\ upper us == 5 # 7 /\ rd_range us = (Qred (lower us), Qred (upper us)).
 Proof. vm_compute. repeat split; discriminate. Qed.
 
+(* the n of RiskDifference.fit in the CURRENT source: the rows with exposure and outcome both observed *)
+Theorem C19_src_n_counts_complete_rows : forall rows, base_rd_n_Q rows = Qlen (filter complete rows).
+Proof. exact gen_base_rd_n. Qed.
+
 Print Assumptions C19_bounds_valid.
 Print Assumptions C19_lower_attained.
 Print Assumptions C19_upper_attained.
@@ -67,3 +71,4 @@ Print Assumptions C19_counts_are_bounds.
 Print Assumptions C19_source_lower.
 Print Assumptions C19_source_upper.
 Print Assumptions C19_old_formula_refuted.
+Print Assumptions C19_src_n_counts_complete_rows.
